@@ -52,6 +52,7 @@ MismatchAll == {M("validate", a.arm, a.var) : a \in ValidateAll} \cup {M("j5", a
 CardsAll == {"single", "optional", "repeated", "map"}
 CardsAnn == {"single", "repeated", "map"}
 CardsOne == {"single"}
+CardsTwo == {"single", "repeated"}
 CardsGraph2 == {"single", "map"}
 CardsGraph3 == {"single", "repeated", "map"}
 KeysAll == {"string", "int32", "bool", "uint64"}
@@ -72,8 +73,8 @@ EnumOptsAll == {"none", "no_default", "info_fields", "value_info"}
 EnumOptsNone == {"none"}
 RecAll == {"self", "mutual", "map", "repeated", "optional", "oneof", "flatchild", "flatclash", "oneofclash"}
 \* reduced pools for pair exploration: one representative per class of the kind switch
-KindsPair == {"string", "bool", "int32", "uint64", "fixed32", "fixed64", "double"}
-WktPair == {"Timestamp", "Duration", "Struct", "Any", "Empty", "J5Date"}
+KindsPair == {"string", "bool", "int32", "fixed32", "fixed64", "double"}
+WktPair == {"Timestamp", "Struct", "Any", "Empty"}
 ValidatePair == A("string", {"min_len", "uuid", "ip"}) \cup A("bool", {"const"}) \cup A("int32", {"gt", "const"}) \cup A("double", {"gt"})
                \cup A("repeated", {"min_items", "items_match", "items_string"}) \cup A("map", {"values_match", "values_string"})
                \cup A("enum", {"in_ok", "in_missing"}) \cup A("timestamp", {"lt", "const"}) \cup A("required", {"true"})
